@@ -1,5 +1,6 @@
 import ModbusModel.Lemmas.Client
 import ModbusModel.Lemmas.Call
+import ModbusModel.Lemmas.ClientFraming
 /-
   C06 – A client call succeeds only for the response that answers its request.
 -/
@@ -105,5 +106,42 @@ theorem call_result_decoded (c : Client) (req : Request) (t : Transport) (b : Bu
 example : classify ⟨3, 7⟩ (.custom 8) ⟨3, 7⟩ (.error ⟨.diagnostics, .illegalFunction⟩) = .exception .illegalFunction := by decide
 example : classify ⟨3, 7⟩ .readCoils ⟨4, 7⟩ (.ok (.readCoils [])) = .headerMismatch (.ok (.readCoils [])) := by decide
 example : classify ⟨3, 7⟩ .readCoils ⟨3, 7⟩ (.ok (.readDiscreteInputs [])) = .fnMismatch (.ok (.readDiscreteInputs [])) := by decide
+
+/-- **the verdict on whatever reply arrives** (TCP, whole call, every fragmentation): the transport
+    delivers – cut into reads in any way, with anything behind it – an MBAP frame under ANY
+    header whose PDU decodes to `res`.  The call returns exactly the verdict of `classify_spec`:
+    a header mismatch when transaction or unit id differ from what this call stamped, else a
+    function-code mismatch when the codes differ, else the response / the exception. -/
+theorem reply_verdict_tcp (c : Client) (req : Request) (t : Transport) (hdr : TcpHeader) (pdu : Bytes)
+    (res : ResponseResult) (tail frame : Bytes) (hk : c.kind = .tcp)
+    (hr : Ready c t (tcpFrame hdr pdu ++ tail))
+    (hl : pdu.length < 65535) (hd : decodeResponsePdu pdu = .ok res)
+    (henc : clientEncode .tcp (stampedHdr c) req = .ok frame) (hfne : frame ≠ []) :
+    ∃ c' t', c.call req t none
+      = (.done (classify (stampedHdr c) req.functionCode { tid := hdr.transactionId, unit := hdr.unitId } res),
+          c', t', [.write frame]) := by
+  obtain ⟨c', t', h, _⟩ := call_generic tcpClientFraming c req t _ tail frame hk hr
+    ⟨_, _, _, hl, hd, rfl⟩ (by simp [tcpFrame, be16]) henc hfne
+  refine ⟨c', t', ?_⟩
+  rw [h, tcpClientFraming_item _ _ _ hl hd]
+
+/-- **the verdict on whatever reply arrives** (RTU, whole call, every fragmentation) -/
+theorem reply_verdict_rtu (c : Client) (req : Request) (t : Transport) (slave : UInt8) (pdu : Bytes)
+    (res : ResponseResult) (tail frame : Bytes) (hk : c.kind = .rtu)
+    (hr : Ready c t (rtuFrame slave pdu ++ tail))
+    (hlen : ∀ rest, responsePduLen (rtuFrame slave pdu ++ rest) = .ok (some pdu.length))
+    (hd : decodeResponsePdu pdu = .ok res)
+    (henc : clientEncode .rtu (stampedHdr c) req = .ok frame) (hfne : frame ≠ []) :
+    ∃ c' t', c.call req t none
+      = (.done (classify (stampedHdr c) req.functionCode { tid := 0, unit := slave } res), c', t', [.write frame]) := by
+  obtain ⟨c', t', h, _⟩ := call_generic rtuClientFraming c req t _ tail frame hk hr
+    ⟨_, _, _, rfl, hlen, hd⟩ (by simp [rtuFrame]) henc hfne
+  refine ⟨c', t', ?_⟩
+  rw [h, rtuClientFraming_item _ _ _ hlen hd]
+
+-- non-vacuity: a reply under a foreign transaction id, with a complete second frame right behind it
+example : ((Client.attach .tcp).call (.readHoldingRegisters 0 1)
+    { reads := [.data [0, 9, 0, 0, 0, 5, 0xFF, 3, 2, 0, 1, 0, 0, 0, 0, 0, 5, 0xFF, 3, 2, 0, 7]] } none).1
+    = .done (.headerMismatch (.ok (.readHoldingRegisters [1]))) := by decide +kernel
 
 end Modbus.Props.C06
